@@ -2,7 +2,8 @@
 #![allow(dead_code)]
 use crate::logic::*;
 
-/// CIE 15: f(t) = t^(1/3) if t > (6/29)^3 else t * 841/108 + 4/29
+// ---- CIE 15: L*a*b*, L*u*v* ----
+/// f(t) = t^(1/3) if t > (6/29)^3 else t * 841/108 + 4/29
 pub fn cie_f<T: Num>(t: T) -> T {
     let eps = T::k(216.0 / 24389.0);
     T::ite(&T::p_lt(&eps, &t), t.cbrt(), t * T::k(841.0 / 108.0) + T::k(4.0 / 29.0))
@@ -12,3 +13,88 @@ pub fn cie_f_inv<T: Num>(f: T) -> T {
     let d = T::k(6.0 / 29.0);
     T::ite(&T::p_lt(&d, &f), f * f * f, (f - T::k(4.0 / 29.0)) * T::k(108.0 / 841.0))
 }
+pub fn xyz_to_lab<T: Num>(x: T, y: T, z: T, w: (f64, f64, f64)) -> (T, T, T) {
+    let (fx, fy, fz) = (cie_f(x / T::k(w.0)), cie_f(y / T::k(w.1)), cie_f(z / T::k(w.2)));
+    (T::k(116.0) * fy - T::k(16.0), T::k(500.0) * (fx - fy), T::k(200.0) * (fy - fz))
+}
+pub fn lab_to_xyz<T: Num>(l: T, a: T, b: T, w: (f64, f64, f64)) -> (T, T, T) {
+    let fy = (l + T::k(16.0)) / T::k(116.0);
+    let fx = fy + a / T::k(500.0);
+    let fz = fy - b / T::k(200.0);
+    (T::k(w.0) * cie_f_inv(fx), T::k(w.1) * cie_f_inv(fy), T::k(w.2) * cie_f_inv(fz))
+}
+/// CIE 1976 L*u*v* (y > 0): L* as for Lab (with t^(1/3) written as the power the code uses), u* = 13 L* (u' - u'n)
+pub fn xyz_to_luv<T: Num>(x: T, y: T, z: T, w: (f64, f64, f64)) -> (T, T, T) {
+    let yr = y / T::k(w.1);
+    let eps = T::k(216.0 / 24389.0);
+    let l = T::ite(&T::p_lt(&eps, &yr), T::k(116.0) * palette::num::Powf::powf(yr, T::k(1.0 / 3.0)) - T::k(16.0), T::k(24389.0 / 27.0) * yr);
+    let d = x + T::k(15.0) * y + T::k(3.0) * z;
+    let dn = w.0 + 15.0 * w.1 + 3.0 * w.2;
+    let (up, vp) = (T::k(4.0) * x / d, T::k(9.0) * y / d);
+    let (un, vn) = (T::k(4.0 * w.0 / dn), T::k(9.0 * w.1 / dn));
+    (l, T::k(13.0) * l * (up - un), T::k(13.0) * l * (vp - vn))
+}
+
+// ---- transfer functions (linear -> encoded and back) ----
+pub fn srgb_encode<T: Num>(x: T) -> T {
+    T::ite(&T::p_le(&x, &T::k(0.0031308)), T::k(12.92) * x, T::k(1.055) * palette::num::Powf::powf(x, T::k(1.0 / 2.4)) - T::k(0.055))
+}
+pub fn srgb_decode<T: Num>(v: T) -> T {
+    T::ite(&T::p_le(&v, &T::k(0.04045)), v / T::k(12.92), palette::num::Powf::powf((v + T::k(0.055)) / T::k(1.055), T::k(2.4)))
+}
+
+// ---- hexcone models (Smith 1978; HWB: Smith & Lyons 1996) ----
+pub fn max3<T: Num>(a: T, b: T, c: T) -> T { let m = T::ite(&T::p_le(&a, &b), b, a); T::ite(&T::p_le(&m, &c), c, m) }
+pub fn min3<T: Num>(a: T, b: T, c: T) -> T { let m = T::ite(&T::p_le(&a, &b), a, b); T::ite(&T::p_le(&m, &c), m, c) }
+/// hue in degrees as an un-normalised sextant formula; defined for max != min
+pub fn hex_hue<T: Num>(r: T, g: T, b: T) -> T {
+    let (mx, mn) = (max3(r, g, b), min3(r, g, b));
+    let c = mx - mn;
+    let hr = (g - b) / c;
+    let hg = (b - r) / c + T::k(2.0);
+    let hb = (r - g) / c + T::k(4.0);
+    T::k(60.0) * T::ite(&T::p_eq(&mx, &r), hr, T::ite(&T::p_eq(&mx, &g), hg, hb))
+}
+
+// ---- Oklab (Ottosson 2020), XYZ D65 -> Oklab ----
+pub const OK_M1: [[f64; 3]; 3] = [
+    [0.8189330101, 0.3618667424, -0.1288597137],
+    [0.0329845436, 0.9293118715, 0.0361456387],
+    [0.0482003018, 0.2643662691, 0.6338517070],
+];
+pub const OK_M2: [[f64; 3]; 3] = [
+    [0.2104542553, 0.7936177850, -0.0040720468],
+    [1.9779984951, -2.4285922050, 0.4505937099],
+    [0.0259040371, 0.7827717662, -0.8086757660],
+];
+pub fn mat_vec<T: Num>(m: &[[f64; 3]; 3], v: (T, T, T)) -> (T, T, T) {
+    (T::k(m[0][0]) * v.0 + T::k(m[0][1]) * v.1 + T::k(m[0][2]) * v.2,
+     T::k(m[1][0]) * v.0 + T::k(m[1][1]) * v.1 + T::k(m[1][2]) * v.2,
+     T::k(m[2][0]) * v.0 + T::k(m[2][1]) * v.1 + T::k(m[2][2]) * v.2)
+}
+pub fn xyz_to_oklab<T: Num>(x: T, y: T, z: T) -> (T, T, T) {
+    let (l, m, s) = mat_vec(&OK_M1, (x, y, z));
+    mat_vec(&OK_M2, (l.cbrt(), m.cbrt(), s.cbrt()))
+}
+
+// ---- RGB <-> XYZ matrix from the published primaries (xy) and white point (XYZ, Y = 1) ----
+/// returns M with XYZ = M * RGB, computed with T arithmetic (exact over the reals)
+pub fn rgb_to_xyz_matrix<T: Num>(prim: [(f64, f64); 3], w: (f64, f64, f64)) -> [[T; 3]; 3] {
+    // columns P_i = (x_i/y_i, 1, (1-x_i-y_i)/y_i); solve P * s = W by Cramer's rule
+    let p = |i: usize| -> (T, T, T) { let (x, y) = prim[i]; (T::k(x) / T::k(y), T::k(1.0), (T::k(1.0) - T::k(x) - T::k(y)) / T::k(y)) };
+    let (a, b, c) = (p(0), p(1), p(2));
+    let det3 = |u: (T, T, T), v: (T, T, T), t: (T, T, T)| -> T {
+        u.0 * (v.1 * t.2 - t.1 * v.2) - v.0 * (u.1 * t.2 - t.1 * u.2) + t.0 * (u.1 * v.2 - v.1 * u.2)
+    };
+    let wv = (T::k(w.0), T::k(w.1), T::k(w.2));
+    let d = det3(a, b, c);
+    let (sr, sg, sb) = (det3(wv, b, c) / d, det3(a, wv, c) / d, det3(a, b, wv) / d);
+    [[a.0 * sr, b.0 * sg, c.0 * sb], [a.1 * sr, b.1 * sg, c.1 * sb], [a.2 * sr, b.2 * sg, c.2 * sb]]
+}
+pub const SRGB_PRIM: [(f64, f64); 3] = [(0.64, 0.33), (0.30, 0.60), (0.15, 0.06)];
+pub const ADOBE_PRIM: [(f64, f64); 3] = [(0.64, 0.33), (0.21, 0.71), (0.15, 0.06)];
+pub const REC2020_PRIM: [(f64, f64); 3] = [(0.708, 0.292), (0.170, 0.797), (0.131, 0.046)];
+pub const P3_PRIM: [(f64, f64); 3] = [(0.680, 0.320), (0.265, 0.690), (0.150, 0.060)];
+pub const PROPHOTO_PRIM: [(f64, f64); 3] = [(0.7347, 0.2653), (0.1596, 0.8404), (0.0366, 0.0001)];
+pub const W_D65: (f64, f64, f64) = (0.95047, 1.0, 1.08883);
+pub const W_D50: (f64, f64, f64) = (0.96422, 1.0, 0.82521);
